@@ -433,7 +433,9 @@ def range_word_lists(draw):
         words = [draw(REALISTIC), draw(REALISTIC), draw(REALISTIC) & 0x7FFFFFFF]
     else:
         words = [draw(ANY_WORD), draw(ANY_WORD), draw(ANY_WORD) & 0x7FFFFFFF]
-    if words[2] & 0xFFFFFF == 0:  # spacing must not be zero
+    if draw(st.integers(0, 11)) == 0:
+        words[2] = draw(st.sampled_from([0x00000000, 0x41000000]))   # spacing 0.0 (a stationary or time based recording): X stays at the start
+    elif words[2] & 0xFFFFFF == 0:  # otherwise the spacing is not zero
         words[2] |= draw(st.integers(1, 0xFFFFFF))
     if ibm.ibm_fraction(words[0]) == ibm.ibm_fraction(words[1]):  # start == stop: direction undefined
         words[1] = (words[0] ^ 0x80000000) if words[0] & 0xFFFFFF else 0x41100000
